@@ -616,8 +616,8 @@ func (h *httpServerHandler) handleGet(ctx context.Context, w http.ResponseWriter
 	// Set SSE response headers
 	sseutil.SetStandardHeaders(w)
 	w.Header().Set(httputil.SessionIDHeader, session.GetID())
-	w.WriteHeader(http.StatusOK)
-	flusher.Flush()
+	// The status line and headers are flushed only after this stream is registered (below): once the
+	// client has seen them, every notification for the session must find this stream.
 
 	// Create context, for canceling connection
 	verifYield("get.H")
@@ -642,8 +642,13 @@ func (h *httpServerHandler) handleGet(ctx context.Context, w http.ResponseWriter
 		lastEventID:  lastEventID,
 		sseResponder: newSSEResponder(),
 	}
+	// Senders that find the new stream wait on its write lock until the headers are out.
+	conn.writeLock.Lock()
 	h.getSSEConnections[session.GetID()] = conn
 	h.getSSEConnectionsLock.Unlock()
+	w.WriteHeader(http.StatusOK)
+	flusher.Flush()
+	conn.writeLock.Unlock()
 
 	// Record connection information
 	verifYield("get.T")
@@ -658,9 +663,12 @@ func (h *httpServerHandler) handleGet(ctx context.Context, w http.ResponseWriter
 	<-connCtx.Done()
 	verifYield("get.E")
 
-	// Clean up connection
+	// Clean up connection: remove only this stream's own registration. A newer stream of the same
+	// session may have replaced it (and cancelled this one); deleting by key would evict the successor.
 	h.getSSEConnectionsLock.Lock()
-	delete(h.getSSEConnections, session.GetID())
+	if current, ok := h.getSSEConnections[session.GetID()]; ok && current == conn {
+		delete(h.getSSEConnections, session.GetID())
+	}
 	h.getSSEConnectionsLock.Unlock()
 	h.logger.Infof("GET SSE connection closed, session ID: %s", session.GetID())
 }
